@@ -138,6 +138,28 @@ def family_f(k):
     return out
 
 
+def family_g():
+    """file names with control characters in them: git prints such names quoted (the input holds no escape
+    sequence at all), rg --json as JSON escapes"""
+    out = []
+    for q, js in (("new\\nline.txt", "new\\nline.txt"), ("esc\\033[31mx.txt", "esc\\u001b[31mx.txt"),
+                  ("bel\\ax.txt", "bel\\u0007x.txt"), ("cr\\rx.txt", "cr\\rx.txt"), ("tab\\tx.txt", "tab\\tx.txt"),
+                  ("st\\033\\\\x.txt", "st\\u001b\\\\x.txt"), ("del\\177x.txt", "del\\u007fx.txt")):
+        diff = ('diff --git "a/%s" "b/%s"\n--- "a/%s"\n+++ "b/%s"\n@@ -1,2 +1,2 @@\n a\n-b\n+c\n' % (q, q, q, q))
+        out.append((None, diff.encode()))
+        out.append((None, ('diff --git "a/%s" "b/2%s"\nsimilarity index 100%%\nrename from "%s"\nrename to "2%s"\n'
+                           % (q, q, q, q)).encode()))
+        out.append((None, ('diff --git "a/%s" "b/%s"\nold mode 100644\nnew mode 100755\n' % (q, q)).encode()))
+        out.append((None, (' "%s" | 2 +-\n 1 file changed\n\n' % q + diff).encode()))
+        out.append((["git", "grep", "-n", "x"], ('"%s":1:x y\n"%s"-2-z\n' % (q, q)).encode()))
+        out.append((None, ('{"type":"begin","data":{"path":{"text":"./%s"}}}\n'
+                           '{"type":"match","data":{"path":{"text":"./%s"},"lines":{"text":"x y\\n"},"line_number":1,'
+                           '"absolute_offset":0,"submatches":[{"match":{"text":"x"},"start":0,"end":1}]}}\n'
+                           '{"type":"end","data":{"path":{"text":"./%s"},"binary_offset":null,"stats":{}}}\n'
+                           % (js, js, js)).encode()))
+    return out
+
+
 def run_task(task):
     label, opts, caller, pty, inputs, deadline = task
     plain = opts.get("_plain")
@@ -190,7 +212,7 @@ def run_task(task):
 
 ASSUMPTIONS = [
     "inputs' own escape sequences are balanced (generated and verified with the same terminal model)",
-    "families A-D as described in the module docstring, F: log lines carrying their own OSC 8 links with commit hashes "
+    "families A-D as described in the module docstring, G: quoted / JSON-escaped control characters in file names, F: log lines carrying their own OSC 8 links with commit hashes "
     "under --hyperlinks, E: hunk lines containing characters whose case mappings "
     "change their byte length; values outside them are not covered",
     "renders that crash are C03's business and are skipped here",
@@ -256,6 +278,16 @@ def main(tier):
                           ("links,pty", {"hyperlinks": True, "hyperlinks-commit-link-format": "http://h/{commit}",
                                          "width": None}, (24, 60))]:
         tasks.append(("F:" + label, o, None, pty, ff))
+    # G: control characters in file names
+    fg = family_g()
+    for o in ({}, {"hyperlinks": True}, {"hyperlinks": True, "line-numbers": True},
+              {"hyperlinks": True, "side-by-side": True, "width": "60"}, {"hyperlinks": True, "navigate": True},
+              {"grep-output-type": "classic", "hyperlinks": True}, {"grep-output-type": "classic"},
+              {"relative-paths": True, "hyperlinks": True},
+              {"hyperlinks": True, "hyperlinks-file-link-format": "x://{host}/{path}#{line}"}):
+        for caller in sorted(set(map(lambda c: tuple(c[0]) if c[0] else None, fg)), key=str):
+            tasks.append(("G:%s,%s" % ("grep" if caller else "diff", ",".join(sorted(o))), o, list(caller) if caller else None, None,
+                          [d for c, d in fg if (tuple(c) if c else None) == caller]))
     # D: blame / grep
     for name, caller, data in family_d():
         for o in ({}, {"hyperlinks": True}, {"hyperlinks": True, "navigate": True, "width": "20"},
